@@ -1,4 +1,4 @@
-import RnaVerif.Model.Pairs
+import RnaVerif.Model.PairUtil
 import RnaVerif.Generated.Geometry
 /-!
 # M5 — `annotator.find_stackings` in exact rational arithmetic (core Lean only)
